@@ -441,6 +441,12 @@ fn exec_a(sc: &Scenario, verbose: bool, out: &mut RunOut) {
         }
     }
 
+    // reach of the writer's unusual choices (how often each was actually taken in this scenario)
+    for (i, u) in wcfg.used.iter().enumerate() {
+        if u.get() > 0 {
+            out.stats.add(&format!("hflag.H{}.taken", i + 1), u.get() as u64);
+        }
+    }
     // value-level encoders (the single-value counterparts of the text route): the text written by
     // toml::ser::ValueSerializer and by toml_edit::ser::ValueSerializer parses to the same tree, and
     // that tree is the one Value::try_from gives ("the same tree as serializing it to text and
